@@ -33,5 +33,22 @@ for sid in ids:
         subprocess.run(["git", "-C", REPO, "checkout", "--", "."])
     results.append((sid, ok, caught, time.time() - t0))
     print("%-28s %s %s (%.0fs)" % (sid, "applied" if ok else "PATCH-FAILED", "CAUGHT " + "; ".join("%s: %s" % c for c in caught) if caught else "MISSED", time.time() - t0), flush=True)
+# persist: seeded/STATUS.json (id -> last result) and a readable seeded/STATUS.md
+stp = os.path.join(V, "seeded", "STATUS.json")
+st = json.load(open(stp)) if os.path.exists(stp) else {}
+for sid, ok, caught, dt in results:
+    st[sid] = {"applied": ok, "caught": bool(caught), "by": [c[0] for c in caught],
+               "line": caught[0][1] if caught else "", "tier": tier, "wall_s": round(dt)}
+json.dump(st, open(stp, "w"), indent=1, sort_keys=True)
+with open(os.path.join(V, "seeded", "STATUS.md"), "w") as f:
+    f.write("# Seeded changes: last result of tools/selftest.py per change\n\n| id | property | needs | last run |\n|---|---|---|---|\n")
+    for sid in sorted(st):
+        mp = os.path.join(V, "seeded", sid, "meta.json")
+        m = json.load(open(mp)) if os.path.exists(mp) else {}
+        r = st[sid]
+        verdict = ("caught by " + ",".join(r["by"]) + (" (correspondence only)" if "no-failing-input-found" in r["line"] else "")) if r["caught"] else "MISSED"
+        f.write("| %s | %s | %s | %s |\n" % (sid, m.get("property", ""), str(m.get("needs", "")).replace("|", "/").replace("\n", " ")[:260], verdict))
+    n = len(st); c = len([1 for v in st.values() if v["caught"]])
+    f.write("\ncaught %d of %d\n" % (c, n))
 missed = [r[0] for r in results if r[1] and not r[2]]
 print("caught %d / %d; missed: %s" % (len([r for r in results if r[2]]), len(results), missed))
